@@ -101,6 +101,17 @@ func replacements() []replacement {
 	return out
 }
 
+// c13RefusedLines are lines the markup parser refuses, each at another stage and each after it has read well-formed
+// markers (open ones among them, at positions beyond the length of the lines of the families).
+var c13RefusedLines = []string{
+	"Oh, a rather long start, [wave]hello[/wave] there [b]and [bounce",
+	"[wave]Hello[/bounce] over there",
+	"A rather long start, [wave]then [select value=3 1=\"one\" 2=\"two\"/] things",
+	"[a][b]far out to the right [nomarkup]unterminated",
+	"some text [a][é1 x=1]then [b trimwhitespace=3/] more",
+	"[a]x[plural value=q one=\"1\" other=\"n\"/]",
+}
+
 func checkLine(ctx *report.Ctx, c *explore.Chooser, partName string, l *mg.Line, nontrivial bool, alt *mg.Expected) {
 	src := l.Src.String()
 	ctx.Current(partName + ": " + src)
@@ -133,6 +144,33 @@ func checkLine(ctx *report.Ctx, c *explore.Chooser, partName string, l *mg.Line,
 	if pan != "" {
 		fail("markup-textforattribute-panic", "TextForAttribute panicked: "+pan+fmt.Sprintf(" (attributes %+v on text %q)", res.Attributes, res.Text))
 		return
+	}
+	// the same line on a parser that has just refused lines at every stage of parsing (a dialogue runner owns one parser
+	// and goes on after a line that failed): the result is that of the fresh parser
+	{
+		var used markup.LineParser
+		var res2 *markup.ParseResult
+		var err2 error
+		if p := guard(func() {
+			for _, bad := range c13RefusedLines {
+				if _, e := used.ParseMarkup(bad); e == nil {
+					ctx.HarnessError("C13: the line %q is meant to be refused by the markup parser and was accepted", bad)
+				}
+			}
+			res2, err2 = used.ParseMarkup(src)
+		}); p != nil {
+			fail("markup-after-refused-lines", fmt.Sprintf("ParseMarkup panicked on a parser that had refused other lines before: %v", p))
+			return
+		}
+		if err2 != nil {
+			fail("markup-after-refused-lines", "a parser that had refused other lines before refuses this well-formed line: "+err2.Error())
+			return
+		}
+		got2, pan2 := mg.RealKeys(res2, mg.ReplacementNames)
+		if pan2 != "" || res2.Text != res.Text || strings.Join(got2, " ; ") != strings.Join(got, " ; ") {
+			fail("markup-after-refused-lines", fmt.Sprintf("on a parser that had refused %d other lines before: text %q attributes [%s] %s; on a fresh parser: text %q attributes [%s]", len(c13RefusedLines), res2.Text, strings.Join(got2, " ; "), pan2, res.Text, strings.Join(got, " ; ")))
+			return
+		}
 	}
 	want := ex.Keys()
 	if strings.Join(got, " ; ") != strings.Join(want, " ; ") {
